@@ -1,6 +1,6 @@
 (* Property C03 — Interest and Data packets survive encode->decode unchanged for all field values.
    Only theorem statements closed by `exact`, each followed by Print Assumptions. *)
-From Packet Require Import Model Spec ReadersProofs EncProofs DecGeneric DecProofs DecData DecInterest EncData EncInterest Roundtrip.
+From Packet Require Import Model Spec ReadersProofs EncProofs DecGeneric DecProofs DecData DecInterest EncData EncInterest Roundtrip Walker.
 From Names Require Import Order.
 Open Scope N_scope.
 Arguments ROk {A}.
@@ -59,6 +59,26 @@ Theorem interest_roundtrip : forall (sha256 : bytes -> bytes), (forall x, length
                     (0 < est -> concat cov = concat (e_cov e)).
 Proof. exact interest_roundtrip_thm. Qed.
 Print Assumptions interest_roundtrip.
+
+(* Every packet built through the API is a well-formed NDN TLV whose every length field is exact: the independent
+   structural walker (Model.walk_packet: uses tl_dec only, recurses into Name, MetaInfo, FinalBlockId, SignatureInfo,
+   KeyLocator, ValidityPeriod, ForwardingHint) accepts the joined wire, which is a single top-level element. *)
+Theorem packet_tlv_exact_data : forall sign nm cfg content sg si est e,
+  data_siginfo sg = Ok (si, est) -> name_ok nm -> meta_wf (meta_of cfg) -> fbid_ok cfg -> signer_ok sg -> data_fits nm cfg content si est ->
+  make_data sign nm cfg content sg = Ok e -> walk_packet (concat (e_wire e)) = true.
+Proof. exact packet_tlv_exact_data_thm. Qed.
+Print Assumptions packet_tlv_exact_data.
+
+Theorem packet_tlv_exact_interest : forall (sha256 : bytes -> bytes), (forall x, length (sha256 x) = 32%nat) ->
+  forall sign nm cfg app sg si est e,
+  let need := match app with Some _ => true | None => false end in
+  let pre := strip_digest nm in
+  let nm1 := if need then pre ++ [mkc 2 zeros32] else pre in
+  int_siginfo sg need = Ok (si, est) -> name_ok pre -> (app = None -> existsb is_digest_comp pre = false) ->
+  iconfig_ok cfg -> signer_ok sg -> signer_int_ok sg -> int_fits nm1 cfg app si est ->
+  make_interest sha256 sign nm cfg app sg = Ok e -> walk_packet (concat (e_wire e)) = true.
+Proof. exact packet_tlv_exact_interest_thm. Qed.
+Print Assumptions packet_tlv_exact_interest.
 
 (* The reader refinement itself: every view of a reader kind is a view (used above for both). *)
 Theorem readers_view : forall (b : bytes) (segs : list bytes),
